@@ -347,9 +347,24 @@ class TPAnalysis:
                 why = ''
                 if not okb: why = f'thread body: {len(runs)} run() call(s), {len(dels)} delete(s)' + ('' if len(runs) != 1 or len(dels) != 1 else (', delete before run' if B.index(dels[0]) < B.index(runs[0]) else f', run on {runs[0].val} but delete of {dels[0].val}'))
                 self.add('TP.1', okb, 'thread body: runnable->run() once, then delete runnable once', clo.fn.shortloc(), why)
-                fin = [e for e in B if e.kind == 'write' and e.obj == 'm_isFinished']
+                # the completion state, by use: the member Thread::isFinished() reads; what the body stores there after run() must make
+                # isFinished() true (whatever the representation: a bool, an enumeration, a counter)
+                isf = self.facts.fn('tulz::Thread::isFinished')
+                flds = sorted({x.name for x in isf.nodes() if x.k == 'member' and x.field and x.d.get('class') == 'tulz::Thread'}) if isf is not None else []
+                if len(flds) != 1:
+                    self.add('TP.1', None, 'thread body: the finished flag is set after run() returned', clo.fn.shortloc(), f'Thread::isFinished() reads {flds or "no member"}: the completion state is not recognised'); continue
+                flag = flds[0]
+                fin = [e for e in B if e.kind == 'write' and e.obj == flag]
                 okf = bool(fin) and bool(runs) and B.index(fin[0]) > B.index(runs[0])
-                self.add('TP.1', okf, 'thread body: the finished flag is set after run() returned', fin[0].site if fin else clo.fn.shortloc(), '' if okf else 'finished flag missing or set before the task ran (update() would reap a running worker)')
+                why = '' if okf else 'finished flag missing or set before the task ran (update() would reap a running worker)'
+                if okf:
+                    class _Flag(EvDomain):
+                        def field_value(s_, path, node, _v=fin[-1].val): return _v if path[-1] == flag else None
+                    rets = {repr(P2.ret) for P2, _ in run_paths(self.facts, isf, _Flag())}
+                    if rets != {'True'}:
+                        okf = False if rets == {'False'} else None
+                        why = f'after the body stored {fin[-1].val} into {flag}, isFinished() returns {sorted(rets)}' + (': the finished worker is never reaped, join() is never reached' if okf is False else ': not followed')
+                self.add('TP.1', okf, 'thread body: the finished flag is set after run() returned', fin[0].site if fin else clo.fn.shortloc(), why)
 
     def _exit_effects(self, res):
         """net effect of one worker, from thread start to thread end, on every integral / bool field of the pool the rules do not
